@@ -306,7 +306,7 @@ func runC15(t *verifsim.Tape, cfg engine.Config) *engine.Outcome {
 		}
 		kind, val := genValue(t)
 		c.ValKind = kind
-		net := &simnet.Net{Tape: t, Cfg: simnet.Config{Chunking: true, ForceChunked: 300, HeaderNoise: 300}}
+		net := &simnet.Net{Tape: t, Cfg: simnet.Config{Chunking: true, ForceChunked: 300, HeaderNoise: 300, DoubleClose: 200}}
 		if faulty {
 			net.Cfg.CutResponse = 400
 			net.Cfg.CutRequest = 200
@@ -492,7 +492,31 @@ func runC15(t *verifsim.Tape, cfg engine.Config) *engine.Outcome {
 				}
 				w.WriteHeader(204)
 			})
+			// a second request encoded BEFORE the first one is sent (two callers of one client), sent right after it
+			var follower *http.Request
+			var fval *c15Struct
+			if useGoaEncoder && t.Draw("pipelined-follower", 3) == 0 {
+				fval = &c15Struct{A: "follower " + textVal(t), N: t.Draw("n", 2000)}
+				follower, _ = http.NewRequestWithContext(simnet.WithExchange(context.Background(), &simnet.Exchange{}), "POST", "http://sim/x", nil)
+				if ferr := goahttp.RequestEncoder(follower).Encode(fval); ferr != nil {
+					follower = nil
+				}
+			}
 			resp, err := net.Do(req)
+			if follower != nil {
+				o.Features["req_pipelined_follower"]++
+				var got c15Struct
+				var ferr error
+				fnet := &simnet.Net{Tape: t, Cfg: simnet.Config{Chunking: true}, Handler: http.HandlerFunc(func(w http.ResponseWriter, r *http.Request) {
+					ferr = goahttp.RequestDecoder(r).Decode(&got)
+					w.WriteHeader(204)
+				})}
+				if _, derr2 := fnet.Do(follower); derr2 != nil {
+					o.Violate("transport_error", "request_pipelined", "fault-free follower exchange failed: %v", derr2)
+				} else if ferr != nil || !sameValue(&got, fval) {
+					o.Violate("request_value", "request_pipelined", "a request encoded before another one was sent, and sent after it, was decoded by the server as %v (error %v); its caller encoded %v", show(&got), ferr, show(fval))
+				}
+			}
 			c.Fault = strings.Join(ex.Faults, ",")
 			key := fmt.Sprintf("req/%s/%s/%s", c.ReqClass, class, kind)
 			distinct[key] = true
